@@ -68,7 +68,7 @@ def check_computed(desc, cfg, stock, pre):
     dtb = dt.reshape(shape1)
     require(np.all(np.isfinite(o["stock"])) and np.all(np.isfinite(o["inflow"])) and np.all(np.isfinite(o["outflow"])), "non-finite-result", cfg["cls"])
     scale = float(np.max(np.abs(o["stock"])) + np.max(dtb * (np.abs(o["inflow"]) + np.abs(o["outflow"]))))
-    tol = 1e-9 * scale  # relative to the magnitudes involved: flows may be in any unit
+    tol = 1e-9 * scale + 1e-290  # relative to the magnitudes involved (flows may be in any unit); floor for subnormals
     prev = np.concatenate([np.zeros_like(o["stock"][:1]), o["stock"][:-1]], axis=0)
     resid = o["stock"] - prev - dtb * (o["inflow"] - o["outflow"])
     worst = float(np.max(np.abs(resid)))
@@ -84,7 +84,7 @@ def check_computed(desc, cfg, stock, pre):
     except Exception as e:
         raise Violation(f"{pre}check_stock_balance-rejects-correct-stock-{gk}", f"{type(e).__name__}: {str(e)[:120]}; grid {cfg['grid']}")
     bal = np.asarray(stock.get_stock_balance(), dtype=float)
-    btol = 1e-8 * scale / min(1.0, float(np.min(dt)))
+    btol = 1e-8 * scale / min(1.0, float(np.min(dt))) + 1e-290
     require(float(np.max(np.abs(bal))) <= btol, f"{pre}get_stock_balance-nonzero-{gk}", f"max |balance| = {float(np.max(np.abs(bal))):.3g}; grid {cfg['grid']}")
     # perturbed stock must be rejected
     idx = np.unravel_index(desc["perturb"] % o["stock"].size, o["stock"].shape)
